@@ -65,7 +65,8 @@ def run(v):
     v.cov["exhaustive"] = True
     v.cov["rule"] = ("Der.tla over Big numbers. TLC enumerates lengths 0..300 and 2^k-1, 2^k, 2^k+1 for k in %s (every 7- and 8-bit octet boundary up "
                      "to u64::MAX), all 124 tags (4 classes x numbers 0..30), the i64 and u64 boundary families incl. the extremes, every boolean "
-                     "octet 0..255 and enumerated indices 0..300; checks Dec(Enc(x)) = x on the specification; the real writer must emit exactly "
+                     "octet 0..255 and enumerated indices 0..300, plus the typed layer (BasicWriter / BasicReader: INTEGER over the i64 family, BOOLEAN, "
+                     "ENUMERATED with a root-only and an extensible item list incl. the first index beyond the list, Der!TLV); checks Dec(Enc(x)) = x on the specification; the real writer must emit exactly "
                      "the octets of Der.tla and the real reader must return the value and consume exactly those octets (a sentinel octet "
                      "follows). T: %d recorded streams of 10 primitives written to one Vec<u8> and read back from one slice, validated by "
                      "Trace_Der.tla (remaining length after each call)." % ("0..63" if not quick else str(ks), accepted))
